@@ -2,7 +2,7 @@
    Input: blocks
      begin <nthreads> <nconds>
      call <t> <op> [arg]
-     tick <t> <m|c> <label> <val|-> <obs>       obs = M <state> <k> <q..> | Q <c> <k> <q..> | F <status> <mstate> <k> <mq..> <k> <c0..> <k> <c1..>
+     tick <t> <m|c> <worker> <label> <val|-> <obs>       (c = inside a context-switch callback of t, running on <worker>)   obs = M <state> <k> <q..> | Q <c> <k> <q..> | F <status> <mstate> <k> <mq..> <k> <c0..> <k> <c1..>
      ret <t> <v>
      end
    Output: one line per block: "ok <events>" or "FAIL <line-in-block> <reason>". *)
@@ -46,12 +46,18 @@ let check_obs s obs =
   | _ -> Some "unparsable obs"
 let () =
   let st = ref (init_state (ni 0) (ni 0)) and ln = ref 0 and cnt = ref 0 and failed = ref None in
+  (* callbacks in flight of each thread, oldest first, named by the worker that runs them
+     (mirrors the model's [cbs] list: a callback runs on one worker from start to end) *)
+  let cbw : (int, int list) Hashtbl.t = Hashtbl.create 16 in
+  let workers t = try Hashtbl.find cbw t with Not_found -> [] in
+  let rec index x = function [] -> None | y :: r -> if x = y then Some 0 else (match index x r with Some i -> Some (i + 1) | None -> None) in
+  let rec drop i = function [] -> [] | y :: r -> if i = 0 then r else y :: drop (i - 1) r in
   let fail msg = if !failed = None then failed := Some (Printf.sprintf "FAIL %d %s" !ln msg) in
   try while true do
     let l = input_line stdin in
     incr ln;
     (match split l with
-     | ["begin"; nt; nc] -> st := init_state (ni (int_of_string nt)) (ni (int_of_string nc)); ln := 0; cnt := 0; failed := None
+     | ["begin"; nt; nc] -> st := init_state (ni (int_of_string nt)) (ni (int_of_string nc)); ln := 0; cnt := 0; failed := None; Hashtbl.reset cbw
      | ["end"] -> (match !failed with Some m -> print_endline m | None -> Printf.printf "ok %d\n" !cnt)
      | _ when !failed <> None -> ()
      | "call" :: t :: o ->
@@ -62,8 +68,22 @@ let () =
          (match step !st (ni (int_of_string t), ERet (zs v)) with
           | Some s' -> st := s'; incr cnt
           | None -> fail (Printf.sprintf "return value differs or no call complete in the model: t%s returned %s" t v))
-     | "tick" :: t :: ctx :: lab :: v :: obs ->
-         let tn = ni (int_of_string t) and incb = (ctx = "c") in
+     | "tick" :: t :: ctx :: wk :: lab :: v :: obs ->
+         let ti = int_of_string t in
+         let tn = ni ti and w = int_of_string wk in
+         (* which activity of the thread: main, or the callback running on worker w *)
+         let slot =
+           if ctx <> "c" then Some None
+           else match index w (workers ti) with
+             | Some i -> Some (Some i)
+             | None ->
+                 (* first step of a new callback: it must be the newest entry of the model's list *)
+                 let n = ino (ncbs !st tn) and k = Stdlib.List.length (workers ti) in
+                 if n = k + 1 then (Hashtbl.replace cbw ti (workers ti @ [w]); Some (Some k)) else None in
+         (match slot with
+          | None -> fail (Printf.sprintf "t%s starts a context-switch callback on w%s (POINT %s) but the model has no new callback for it" t wk lab)
+          | Some sl ->
+         let incb = (match sl with Some i -> Some (ni i) | None -> None) in
          let ml = str (label !st tn incb) in
          if ml <> lab then fail (Printf.sprintf "t%s(%s) executes POINT %s but the model expects %s" t ctx lab (if ml = "" then "<no step>" else ml))
          else begin
@@ -71,10 +91,14 @@ let () =
             | Some mv when v <> "-" && sz mv <> v -> fail (Printf.sprintf "t%s POINT %s carries value %s, model expects %s" t lab v (sz mv))
             | _ -> ());
            (match check_obs !st obs with Some m -> fail (Printf.sprintf "before t%s %s: %s" t lab m) | None -> ());
-           (match step !st (tn, if incb then ECbTick else ETick) with
-            | Some s' -> st := s'; incr cnt
+           let before = ino (ncbs !st tn) in
+           (match step !st (tn, (match sl with Some i -> ECbTick (ni i) | None -> ETick)) with
+            | Some s' ->
+                st := s'; incr cnt;
+                (* a finished callback leaves the model's list: forget its worker *)
+                (match sl with Some i when ino (ncbs !st tn) < before -> Hashtbl.replace cbw ti (drop i (workers ti)) | _ -> ())
             | None -> fail (Printf.sprintf "step %s of t%s not enabled in the model" lab t))
-         end
+         end)
      | [] -> ()
      | _ -> fail ("unparsable line: " ^ l))
   done with End_of_file -> ()
